@@ -70,6 +70,17 @@ func buildVC(o *Obligation, assumptions []*Term, modelVars []*Term) string {
 	return buildVC2(o, assumptions, modelVars, false)
 }
 
+// absMulVC: set (under vcMu) while the multiplication-abstracted variant of a VC is built
+var absMulVC bool
+
+func buildVCAbsMul(o *Obligation, assumptions []*Term, modelVars []*Term) string {
+	vcMu.Lock()
+	absMulVC = true
+	vcMu.Unlock()
+	defer func() { vcMu.Lock(); absMulVC = false; vcMu.Unlock() }()
+	return buildVC2(o, assumptions, modelVars, false)
+}
+
 func buildVC2(o *Obligation, assumptions []*Term, modelVars []*Term, dropQuantified bool) string {
 	vcMu.Lock()
 	defer vcMu.Unlock()
@@ -114,6 +125,9 @@ func buildVC2(o *Obligation, assumptions []*Term, modelVars []*Term, dropQuantif
 	asserts = append(asserts, o.PC)
 	if !o.Vacuity {
 		asserts = append(asserts, Not(goal))
+	}
+	if absMulVC {
+		asserts = abstractMul(asserts)
 	}
 	order, _ := collect(asserts)
 	sax := stringAxioms(order)
@@ -425,6 +439,19 @@ func dischargeAll(res *FuncResult, dir string, timeoutS, seed, par int, modelVar
 					}
 					if allProved {
 						o.Status = "proved"
+					}
+				}
+				if o.Status == "unknown" && !noRelax {
+					// products of two variables as an uninterpreted function (valid under the abstraction => valid)
+					vc4 := buildVCAbsMul(o, res.Assumptions, modelVars)
+					f4 := strings.TrimSuffix(file, ".smt2") + "_absmul.smt2"
+					if len(vc4) < maxVCBytes && strings.Contains(vc4, "absmul") {
+						os.WriteFile(f4, []byte(vc4), 0o644)
+						r4 := solve(f4, tmo, seed)
+						o.Ms += r4.ms
+						if r4.status == "unsat" {
+							o.Status, o.Solver = "proved", r4.solver+"(products abstracted)"
+						}
 					}
 				}
 				if o.Status == "unknown" && !noRelax {
